@@ -64,6 +64,15 @@ Fixpoint fwd_known (ds : dsdesc) (s : dstack) : bool :=
   | DFwd c inner => match assoc c (ds_fwd ds) with Some _ => true | None => false end && forallb (fwd_known ds) inner
   end.
 
+(* a HISTORY of earlier runs of the hook on the same object: in the parent before the workers were forked / the copies
+   pickled (a manual call for num_workers = 0, an earlier launch on the same dataset object), or earlier in the same
+   worker; run j started when the global NumPy RNG of the process it ran in had handed out ks[j] seeds *)
+Fixpoint wi_history (tbl ctbl : table) (wt : wtable) (ds : dsdesc) (ks : list nat) (s : dstack) : dstack :=
+  match ks with
+  | [] => s
+  | k' :: r => wi_history tbl ctbl wt ds r (snd (worker_init tbl ctbl wt ds k' s))
+  end.
+
 (* erasure of all generator slots *)
 Fixpoint serase (s : dstack) : dstack :=
   match s with
